@@ -1,0 +1,74 @@
+// Copyright The Kestrel Contributors
+// SPDX-License-Identifier: BSD-3-Clause
+
+//! Verification hooks. Compiled only with the `verif` feature, inert unless a
+//! source/observer is installed or KESTREL_VERIF_ENTROPY_SEED is set.
+
+use std::cell::RefCell;
+use std::sync::atomic::{AtomicU64, Ordering};
+use std::sync::OnceLock;
+
+/// Replacement entropy source for the current thread.
+pub type EntropySource = Box<dyn FnMut(&mut [u8])>;
+/// Observer of every AEAD seal: (key, nonce, aad, plaintext).
+pub type SealObserver = Box<dyn FnMut(&[u8], &[u8], &[u8], &[u8])>;
+
+thread_local! {
+    static ENTROPY: RefCell<Option<EntropySource>> = const { RefCell::new(None) };
+    static SEAL: RefCell<Option<SealObserver>> = const { RefCell::new(None) };
+}
+
+static ENV_SEED: OnceLock<Option<Vec<u8>>> = OnceLock::new();
+static ENV_COUNTER: AtomicU64 = AtomicU64::new(0);
+
+/// Install (or remove) the entropy source used by `secure_random` on this thread.
+pub fn set_entropy_source(src: Option<EntropySource>) {
+    ENTROPY.with(|e| *e.borrow_mut() = src);
+}
+
+/// Install (or remove) the seal observer on this thread.
+pub fn set_seal_observer(obs: Option<SealObserver>) {
+    SEAL.with(|s| *s.borrow_mut() = obs);
+}
+
+pub(crate) fn fill_entropy(data: &mut [u8]) -> bool {
+    let used = ENTROPY.with(|e| {
+        if let Some(src) = e.borrow_mut().as_mut() {
+            src(data);
+            true
+        } else {
+            false
+        }
+    });
+    if used {
+        return true;
+    }
+    let seed = ENV_SEED.get_or_init(|| {
+        std::env::var_os("KESTREL_VERIF_ENTROPY_SEED").map(|v| v.as_encoded_bytes().to_vec())
+    });
+    if let Some(seed) = seed {
+        // Process-global stream: SHA-256(seed || counter), never repeating.
+        let mut off = 0;
+        while off < data.len() {
+            let ctr = ENV_COUNTER.fetch_add(1, Ordering::SeqCst);
+            let mut block = seed.clone();
+            block.extend_from_slice(&ctr.to_be_bytes());
+            let digest = crate::sha256(&block);
+            let n = std::cmp::min(32, data.len() - off);
+            data[off..off + n].copy_from_slice(&digest[..n]);
+            off += n;
+        }
+        return true;
+    }
+    false
+}
+
+pub(crate) fn observe_seal(key: &[u8], nonce: &[u8], aad: &[u8], plaintext: &[u8]) {
+    SEAL.with(|s| {
+        if let Ok(mut guard) = s.try_borrow_mut() {
+            if let Some(obs) = guard.as_mut() {
+                obs(key, nonce, aad, plaintext);
+            }
+        }
+    });
+}
